@@ -238,6 +238,7 @@ pub fn base_plan(inst: Inst, mode: &str, rng: &mut Rng, reports: usize) -> PlanA
         skew: None,
         skew2: None,
         foreign: Vec::new(),
+        cross_client: inst.is_prio3() && inst.named && inst.proofs == 1 && inst.xof.is_empty() && rng.chance(1, 3),
         timeouts: false,
         store_faults: Vec::new(),
         storage: Vec::new(),
@@ -495,7 +496,7 @@ fn gen_plan(id: &str, seed: u64, _run: u64, tier: Tier) -> PlanA {
             p
         }
         "C02" => {
-            let mut inst = gen_prio3_inst(rng, true, false);
+            let mut inst = gen_prio3_inst(rng, true, true);
             if inst.n > 8 {
                 inst.n = 2 + rng.below(5) as u8;
             }
@@ -671,6 +672,12 @@ impl<'a> Visitor for ExecVis<'a> {
                 match (ad.shard(vdaf, &plan.ctx.0, twin, &nonce, &rep.rand.0, false), pass.shards.get(i)) {
                     (Ok((pb, ib)), Some(Some((pb2, ib2)))) => {
                         if pb != *pb2 || ib != *ib2 {
+                            if plan.inst.named && plan.inst.proofs == 1 {
+                                // the aggregators' instance came from a named constructor, the seam's from the explicitly built
+                                // type with the same documented parameters: they must be the same VDAF
+                                ctx.fail(Violation::new(&format!("{}.fidelity", robust_id(&plan.inst)), "named_constructor_differs".to_string(), format!("the instance built by the named constructor shards the valid measurement {:?} differently from the explicitly built type with the same parameters ({})", &twin[..twin.len().min(8)], plan.inst.label())));
+                                return Ok(ctx.finish());
+                            }
                             return Err(format!("Evil<T> seam is not faithful: shares differ from the honest client's for measurement {twin:?}"));
                         }
                     }
@@ -1303,6 +1310,11 @@ pub fn shrink_plan_a(p: &PlanA) -> Vec<PlanA> {
     for i in 0..p.foreign.len() {
         let mut q = p.clone();
         q.foreign.remove(i);
+        out.push(q);
+    }
+    if p.cross_client {
+        let mut q = p.clone();
+        q.cross_client = false;
         out.push(q);
     }
     if p.skew2.is_some() {
